@@ -359,7 +359,7 @@ func VerifH_mestep() {
 			verifAssert(v1.status[e] == available, "C14: endpoint reported available is not available")
 			if v0.status[e] == recovering {
 				t, ok := tm0.(*vTimer)
-				verifAssert(ok && t != nil && t.stopped, "C14: availability report inside the window did not cancel the recovery timer")
+				verifAssert(ok && t != nil && t.stopped, "C13,C14: availability report inside the window did not cancel the recovery timer (the stale timer can still make the available endpoint unavailable)")
 			}
 		}
 	}
